@@ -6,6 +6,7 @@ package server
 // model.  (The same executions carry the C19 oracles when job.Check == "c19".)
 
 import (
+	"sort"
 	"fmt"
 	"strings"
 )
@@ -52,6 +53,8 @@ func c01Alphabet(tier string) []seqSym {
 		sy("DROP", "k1"),
 		sy("RENAME", "k1", "k2"),
 		sy("RENAMENX", "k1", "k2"),
+		sy("SETCHAN", "chk", "NEARBY", "k2", "FENCE", "DETECT", "enter", "POINT", "50", "50", "100"), // (no event ever fires: the objects are far away) RENAME onto / from a watched key is refused
+		sy("DELCHAN", "chk"),
 		sy("FLUSHDB"),
 		sy("EXPIRE", "k1", "a", "100"),
 		sy("PERSIST", "k1", "a"),
@@ -208,12 +211,30 @@ func runSeqCheckOpt(job *Job, res *Result, prop string, alpha []seqSym, depth in
 			if hooksOnly {
 			} else if err != nil {
 				viol("dump", err.Error())
-			} else if sc != e.Dst {
+			} else if sc != mColsPart(e.Dst) {
 				sig := "state:" + strings.ToLower(sym.Args[0])
 				if e.Src == e.Dst {
 					sig = "negative-answer-changed-state:" + strings.ToLower(sym.Args[0])
 				}
 				viol(sig, fmt.Sprintf("visible state %q, model %q (before: %q)", sc, e.Dst, e.Src))
+			}
+			if !hooksOnly && strings.Contains(e.Dst+e.Src, "@c:") {
+				// the channels the model holds are the channels CHANS lists
+				var got, want []string
+				for _, e2 := range c.Do("CHANS", "*").A {
+					if len(e2.A) > 0 {
+						got = append(got, "c:"+e2.A[0].S)
+					}
+				}
+				for _, k := range sortedKeys(dst.Hooks) {
+					if strings.HasPrefix(k, "c:") {
+						want = append(want, k)
+					}
+				}
+				sort.Strings(got)
+				if strings.Join(got, ",") != strings.Join(want, ",") {
+					viol("state:channels:"+strings.ToLower(sym.Args[0]), fmt.Sprintf("CHANS * lists %v, model %v", got, want))
+				}
 			}
 			idump, problems := internalDump(in.S)
 			for _, p := range problems {
@@ -304,4 +325,18 @@ func checkC01(job *Job, res *Result) {
 		alpha = c01Alphabet(a)
 	}
 	runSeqCheck(job, res, "C01", alpha, depth, seqHooks{})
+}
+
+// mColsPart: the collections part of a model canon (hooks / channels follow after the last collection).
+func mColsPart(canon string) string {
+	if strings.HasPrefix(canon, "@c:") || strings.HasPrefix(canon, "@h:") {
+		return ""
+	}
+	if i := strings.Index(canon, "}@c:"); i >= 0 {
+		return canon[:i+1]
+	}
+	if i := strings.Index(canon, "}@h:"); i >= 0 {
+		return canon[:i+1]
+	}
+	return canon
 }
